@@ -235,6 +235,22 @@ fn gen_case(src: &mut Src, st: &mut Stats) -> Value {
     } else {
         expr
     };
+    // deep nesting (well below the depth at which the recursive parser runs out of stack):
+    // what is accepted, and how deep, must not depend on the build
+    let expr = if doc_kind && src.chance(20) {
+        let d = 20 + src.below(100);
+        match src.below(7) {
+            0 => format!("{}nums{}", "(".repeat(d), ")".repeat(d)),
+            1 => format!("{}s", "!".repeat(d)),
+            2 => format!("{}n{}", "[".repeat(d), "]".repeat(d)),
+            3 => format!("{}n{}", "abs(".repeat(d), ")".repeat(d)),
+            4 => format!("{}s{}", "{a: ".repeat(d), "}".repeat(d)),
+            5 => format!("{}s{}", "z || (".repeat(d), ")".repeat(d)),
+            _ => format!("{}objs{}", "not_null(z, ".repeat(d), ")".repeat(d)),
+        }
+    } else {
+        expr
+    };
     let expr = if src.chance(24) {
         let n = long_numeral(src);
         match src.below(4) {
